@@ -138,11 +138,11 @@ def main():
             "name": "vsim",
             "path": "vsim/",
             "serves_properties": sorted(CHECKS),
-            "kind_free_text": "deterministic simulation with fault injection: seeded baton-passing thread scheduler replacing joblib.Parallel (line-level pre-emption via sys.settrace), chunk-size buggify knobs, file-system mutation seam with io-error/kill/torn-write faults in forked children, directory-listing permutation, fork-per-scenario pool, reference models as oracles, scenario minimiser and replay files",
+            "kind_free_text": "deterministic simulation with fault injection: seeded baton-passing thread scheduler replacing joblib.Parallel (line-level pre-emption via sys.settrace), chunk-size buggify knobs, file-system mutation seam with io-error/kill/torn-write faults in forked step processes, directory-listing permutation, entropy seam (unseeded numpy generators) and uninitialised-memory seam (np.empty poisoning), fork-per-scenario pool, reference models as oracles, scenario + schedule minimiser (delta-debugged explicit switch lists) and replay files",
         }],
         "checks": checks,
         "not_applicable": na,
-        "notes": "fix: commits in /repo are recorded in known_findings.json ('fixed' entries). See DESIGN.md.",
+        "notes": "17 fix: commits in /repo are recorded in known_findings.json ('fixed' entries; no open finding). 55 changes seeded by independent sub-agents are kept under seeded/ with what catches them; self-tests: ./check selftest-determinism | selftest-fidelity | selftest-mutants. See DESIGN.md section 0.",
     }
     with open(os.path.join(HERE, "MANIFEST.json"), "w") as fh:
         json.dump(manifest, fh, indent=1)
